@@ -426,7 +426,10 @@ def build():
              clf_data, clf3, methods=["transform"], rowwise=["transform"], fit_in_place=True,
              alts={"method": [lambda: "predict"],
                    "models": [lambda: [sk.SkBaseTransformLearner(Ridge(alpha=0.5), "predict"),
-                                       sk.SkBaseTransformLearner(LinearRegression(), "predict")]]}))
+                                       sk.SkBaseTransformLearner(LinearRegression(), "predict")],
+                              # other learner objects with the same hyper-parameters as the current ones
+                              lambda est: ([__import__("sklearn.base", fromlist=["clone"]).clone(m)
+                                            for m in est.models] if est is not None else SKIP)]}))
     for nm, cls in (("SkBase", SkBase), ("SkBaseLearner", sk.SkBaseLearner), ("SkBaseClassifier", sk.SkBaseClassifier),
                     ("SkBaseRegressor", sk.SkBaseRegressor), ("SkBaseTransform", SkBaseTransform)):
         add(Spec(nm, [lambda cls=cls: cls(alpha=1, name="n"), lambda cls=cls: cls(alpha=2.5, flag=True, name="m"),
